@@ -654,7 +654,11 @@ class Node:
         with self._ready_lock:
             if conn.ident not in self.connections:
                 return
-            conn.state = PEER_READY
+            with conn.state_lock:
+                if conn.state == PEER_CLOSED:
+                    # closed meanwhile, e.g. by a write error
+                    return
+                conn.state = PEER_READY
             for app_peers in self._peer_routes.values():
                 for app, peers in app_peers.items():
                     if not isinstance(app, Application):
@@ -1489,7 +1493,9 @@ class Node:
         # peer will auto-close as soon as write-buffer is emptied, no new
         # outgoing messages will be accepted
         self.logger.debug(f"{conn} changing state to CLOSING")
-        conn.state = PEER_CLOSING
+        with conn.state_lock:
+            if conn.state != PEER_CLOSED:
+                conn.state = PEER_CLOSING
         conn.demand_attention()
 
     def receive_dpr(self, conn: PeerConnection, message: DisconnectPeerRequest):
@@ -1500,6 +1506,8 @@ class Node:
         self.logger.debug(f"{conn} changing state to DISCONNECTING")
 
         with conn.state_lock:
+            if conn.state == PEER_CLOSED:
+                return
             conn.state = PEER_DISCONNECTING
 
         peer = self._find_connection_peer(conn)
@@ -1633,6 +1641,10 @@ class Node:
         msg.disconnect_cause = constants.E_DISCONNECT_CAUSE_REBOOTING
         self.logger.debug(f"{conn} changing state to DISCONNECTING")
         with conn.state_lock:
+            if conn.state == PEER_CLOSED:
+                # closed by its read thread or the connection thread since
+                # the caller looked; nobody is left to answer a DPR
+                return
             conn.state = PEER_DISCONNECTING
         self.send_message(conn, msg)
 
